@@ -42,6 +42,14 @@ def nice(expr):
         cand = m.limit_denominator(10**6) * (Fraction(10) ** e)
         if abs(cand - fr) <= abs(fr) / 10**13:
             reps[f] = sp.Rational(cand.numerator, cand.denominator)
+            continue
+        # constants written with pi and folded to a double by SymPy (1.25 / pi, 4 * pi): read them back as r*pi or r/pi
+        for k, sym in ((1, sp.pi), (-1, 1 / sp.pi)):
+            g = Fraction(float(f) * float(sp.pi) ** (-k))
+            c2 = g.limit_denominator(10**4)
+            if c2 != 0 and abs(c2 - g) <= abs(g) / 10**13:
+                reps[f] = sp.Rational(c2.numerator, c2.denominator) * sym
+                break
     return expr.xreplace(reps) if reps else expr
 
 
@@ -156,7 +164,7 @@ def check_function(item):
     sig = inspect.signature(inner)
     eqs = [(n, e) for n, e in catalogue.public_equations(mod) if isinstance(e, sp.Equality)]
     if not eqs:
-        out.update(verdict="unencoded", why="module exports no equation object")
+        out.update(verdict="skip", why="module exports no equation object: judged against its law FUNCTION by checks/c02_vecwrap.py")
         return out
     out_sym = info["output"] if isinstance(info["output"], sp.Symbol) else None
     ses = Session(None, timeout_ms=TIMEOUT_MS)
@@ -532,12 +540,16 @@ def run(ctx):
         "for every published equation of the module in which arguments (named by the decorator symbols or by the .subs dictionaries of the "
         "body) and result give a total substitution, z3 decides |residual| > 1e-9 * sum|terms| over ALL magnitudes: unsat = the function "
         "returns a solution of its law for every input of the domain. Abs()/ceiling() results are judged on their argument. Vector laws offered solved for "
-        "different unknowns (<x>_law / <y>_law pairs) are composed on symbolic 3-vectors and z3 decides that they are mutual inverses.")
+        "different unknowns (<x>_law / <y>_law pairs) are composed on symbolic 3-vectors and z3 decides that they are mutual inverses. "
+        "Laws about functions (derivative / integral / two-instant forms) are read through the samples the decorators declare (straight line "
+        "through two samples; slope from *_change_ pairs), .doit(), residual decided by z3. Modules whose law is a Python function over vectors: "
+        "the decorated calculate_* runs lifted on quantity vectors with symbolic components and z3 decides that it returns the law function's value.")
     ctx.functions_encoded = ["every calculate_* of the catalogue that survives lifted execution (counted in coverage)", "quantity_decorator.validate_input/validate_output",
                              "Quantity.__init__", "convert.convert_to_float"]
     ctx.stubs = list(lift.STANDARD_STUBS) + ["float() in core.convert -> identity on symbolic reals", "Quantity._eval_is_positive -> scale_factor.is_positive for symbolic quantities (the original answers False when float() fails, flipping sqrt signs)"]
     ctx.bounds = ["all magnitudes in the positive domain (quick); plus all real magnitudes (thorough)", "scalar Quantity / float parameters; sequences, vectors, integers: unencoded",
-                  "algebraic laws with a total symbol mapping; differential/integral/sum laws: unencoded", f"z3 timeout {TIMEOUT_MS} ms, call limit {CALL_TIMEOUT} s"]
+                  "algebraic laws with a total symbol mapping; derivative/integral laws only in the two-sample / slope / two-instant patterns of checks/c02_funclaws.py (others unencoded); sum laws unencoded",
+                  "vector wrappers: non-zero vector components, positive scalars; law function chosen by name", f"z3 timeout {TIMEOUT_MS} ms, call limit {CALL_TIMEOUT} s"]
     ctx.outside = ["unit choice is covered by construction: only the scale factor reaches the body (C05/C07 decide the reduction to scale factors)", "float rounding below 1e-9 relative",
                    "vector laws: only pairs of *_law functions that take each other's result with otherwise identical parameters are paired (others listed unencoded)"]
     ctx.trusted = ["z3 nlsat", "SymPy solve/subs are executed as part of the code under test", "Sym2SMT translator", "C01 (homogeneity) for the unit-system independence of the residual"]
@@ -549,6 +561,8 @@ def run(ctx):
             continue
         ctx.add_solver(r["queries"], r["solver_s"])
         v = r["verdict"]
+        if v == "skip":
+            continue
         if v == "discharged":
             n_run += 1
             ctx.ob(r["name"], "discharged", sample={"function": r["name"], "returned_scale_factor": r.get("result"), "equations": r["why"]} if len(ctx.samples) < 10 else None)
@@ -559,7 +573,8 @@ def run(ctx):
             script = REPLAY_F if (en or "").startswith("F:") else REPLAY
             ctx.violation(f"C02:{r['name']}", f"{r['name']}: {r['why']} (mapping {r.get('par2sym')}, returned {r.get('result')})",
                           script.format(item=tuple(r["item"]), vals=r.get("vals") or {}, ename=(en[2:] if (en or "").startswith("F:") else en), magnitude=r.get("magnitude", False)))
-    from checks import c02_vectors
+    from checks import c02_vectors, c02_vecwrap
     c02_vectors.run(ctx, TIMEOUT_MS)
+    c02_vecwrap.run(ctx, TIMEOUT_MS)
     ctx.extra["calculate_functions"] = len(funcs)
     ctx.extra["functions_decided"] = n_run
